@@ -136,4 +136,38 @@ theorem decryptPair_eq_spec (st : State) (l r : UInt32) :
     List.foldl_cons, List.foldl_nil, two_rounds, F_fun_eq]
   rfl
 
+/-! ## key schedule -/
+
+theorem fillP_eq (ks : List (Fin 9)) (st : State) (x : UInt32 × UInt32) :
+    fillP ks (st, x) =
+      (ofSpec (ks.foldl Spec.Blowfish.stepP (toSpec st, x)).1, (ks.foldl Spec.Blowfish.stepP (toSpec st, x)).2) := by
+  induction ks generalizing st x with
+  | nil => rfl
+  | cons k rest ih =>
+    obtain ⟨l, r⟩ := x
+    simp only [fillP, List.foldl_cons, ih]
+    simp only [Spec.Blowfish.stepP, encryptPair_eq_spec]
+    rfl
+
+theorem fillBox_eq (b : Fin 4) (ks : List (Fin 128)) (st : State) (x : UInt32 × UInt32) :
+    fillBox b ks (st, x) =
+      (ofSpec (ks.foldl (Spec.Blowfish.stepBox b) (toSpec st, x)).1,
+        (ks.foldl (Spec.Blowfish.stepBox b) (toSpec st, x)).2) := by
+  induction ks generalizing st x with
+  | nil => rfl
+  | cons k rest ih =>
+    obtain ⟨l, r⟩ := x
+    simp only [fillBox, List.foldl_cons, ih]
+    simp only [Spec.Blowfish.stepBox, encryptPair_eq_spec]
+    rfl
+theorem fillS_cons (b) (rest) (sx) : fillS (b :: rest) sx = fillS rest (fillBox b (List.finRange 128) sx) := rfl
+theorem fillS_eq (bs : List (Fin 4)) (st : State) (x : UInt32 × UInt32) :
+    fillS bs (st, x) =
+      (ofSpec (bs.foldl Spec.Blowfish.fillBox (toSpec st, x)).1,
+        (bs.foldl Spec.Blowfish.fillBox (toSpec st, x)).2) := by
+  induction bs generalizing st x with
+  | nil => rfl
+  | cons b rest ih =>
+    rw [fillS_cons, fillBox_eq, ih, toSpec_ofSpec, Prod.eta, List.foldl_cons, Spec.Blowfish.fillBox]
+
 end Physis.Blowfish
